@@ -895,6 +895,79 @@ example : let c : Cfg := { custom := some [.net ["192", "0", "2", "2"] true .any
     filterResponse c [.cname ["t", "test"], .a ["192", "0", "2", "1"], .a ["192", "0", "2", "2"]] = .blocked (.shared 4) ∧
     answerVerdict c (.a ["192", "0", "2", "2"]) = .allowed .custom := by decide
 
+/-! ### Letter case: the response verdict does not depend on how a CNAME target is spelled -/
+
+/-- What `parseRespAnswer` hands to the rule lists for a CNAME record is the case-folded target. -/
+theorem ansOf_cname (r : RR) (h : r.typ = qtCNAME) : ansOf r = .cname (normName r.target) := by
+  simp [ansOf, ansOfWith, h, qtA, qtAAAA, qtCNAME]
+
+/-- **response_verdict_ignores_case.**  Two records that differ only in the spelling of the CNAME
+target (equal after case folding — the same DNS name) get the same verdict from every configuration. -/
+theorem response_verdict_ignores_case (c : Cfg) (r : RR) (t' : Host)
+    (h : normName t' = normName r.target) :
+    answerVerdict c (ansOf { r with target := t' }) = answerVerdict c (ansOf r) := by
+  simp [ansOf, ansOfWith, h]
+
+/-- **response_verdict_of_lower_case.**  Case folding is a normal form (`normName_idem`), and the
+verdict on a CNAME record spelled in any way is the verdict on the same record with its target in
+lower case — the spelling the rule lists are written in. -/
+theorem response_verdict_of_lower_case (c : Cfg) (r : RR) :
+    normName (normName r.target) = normName r.target ∧
+    answerVerdict c (ansOf { r with target := normName r.target }) = answerVerdict c (ansOf r) :=
+  ⟨normName_idem _, response_verdict_ignores_case c r _ (normName_idem _)⟩
+
+/-- **response_filter_ignores_case.**  Respelling the CNAME targets of a whole answer section (any
+function that keeps the folded name) does not change the response verdict. -/
+theorem response_filter_ignores_case (c : Cfg) (rs : List RR) (f : Host → Host)
+    (hf : ∀ t, normName (f t) = normName t) :
+    filterResponse c ((rs.map fun r => { r with target := f r.target }).map ansOf) =
+      filterResponse c (rs.map ansOf) := by
+  unfold filterResponse
+  congr 1
+  simp only [List.map_map]
+  apply List.map_congr_left
+  intro r _
+  simp [Function.comp, ansOf, ansOfWith, hf]
+
+/-- **cname_block_any_spelling.**  Rule-level reading: when some source holds a block rule that
+matches the (folded) CNAME target under the type CNAME and no source holds a matching allow rule, the
+record is blocked — however the upstream spelled the target. -/
+theorem cname_block_any_spelling (c : Cfg) (r : RR) (hr : r.typ = qtCNAME)
+    (hno : ∀ p ∈ c.respSources, ¬ HasAllowRule p.2 (normName r.target) qtCNAME)
+    (hb : ∃ p ∈ c.respSources, ∃ d ts, Rule.net d false ts ∈ p.2 ∧
+      domMatch d (normName r.target) = true ∧ ts.ok qtCNAME = true) :
+    ∃ l, answerVerdict c (ansOf r) = .blocked l := by
+  rw [ansOf_cname r hr]
+  exact (resp_precedence c (normName r.target) qtCNAME).2 hno hb
+
+/-- The upstream spells the target `T1.Test`; the list blocks `||t1.test^`. -/
+def caseCfg : Cfg := { lists := [(0, [.net ["t1", "test"] false .any])] }
+def caseRR (t : Host) : RR := { name := ["a", "test"], typ := 5, val := "", ttl := 7777, up := true, target := t }
+
+example : normName ["T1", "Test"] = normName ["t1", "test"] ∧ normName ["T1", "Test"] = ["t1", "test"] := by decide
+
+example : answerVerdict caseCfg (ansOf (caseRR ["T1", "Test"])) = .blocked (.shared 0) ∧
+    answerVerdict caseCfg (ansOf (caseRR ["t1", "test"])) = .blocked (.shared 0) := by decide
+
+/-- **cname_case_counterexample.**  Before the `fix:` commit (`ansOfUnfixed`: the target reaches the
+rule lists in its wire spelling) the verdict DID depend on the spelling: `CNAME T1.Test` passed a
+list that blocks `||t1.test^`, so a blocked name could be reached by capitalising it. -/
+theorem cname_case_counterexample :
+    ¬ (∀ (c : Cfg) (r : RR) (t' : Host), normName t' = normName r.target →
+        answerVerdict c (ansOfUnfixed { r with target := t' }) = answerVerdict c (ansOfUnfixed r)) := by
+  intro h
+  have := h caseCfg (caseRR ["t1", "test"]) ["T1", "Test"] (by decide)
+  exact absurd this (by decide)
+
+/-- The same on a whole exchange: the pre-fix middleware hands the upstream answer through, the fixed
+one answers in the requester's blocking mode. -/
+def caseEnv : Env :=
+  { sw := ⟨true, true, true⟩, prof := caseCfg, grp := {}, mode := .nxdomain, ttl := 10,
+    upstream := fun _ _ => { rcode := 0, ans := [caseRR ["T1", "Test"]], soa := Option.none } }
+
+example : serveCaseSensitive caseEnv ["a", "test"] 1 = caseEnv.upstream ["a", "test"] 1 ∧
+    serve caseEnv ["a", "test"] 1 = { rcode := 3, ans := [], soa := some 10 } := by decide
+
 /-! ### Which lists fill which slots: `filterstorage.Default.ForConfig` -/
 
 /-- **disabled_parental_contributes_nothing.**  With parental control switched off, or inside its
@@ -1139,16 +1212,33 @@ example : let st : Storage := { lists := [(0, [.net ["b", "test"] false .any])],
 /-! ### Whose blocking mode and TTL: the requester's own -/
 
 /-- **requesters_own_mode.**  A requester with a profile (whose TTL is not negative) is answered
-with that profile's blocking mode and TTL whatever the server-wide settings are: changing the
+with that profile's blocking mode and TTL (the whole seconds of the configured duration,
+`ttl_whole_seconds`) whatever the server-wide settings are: changing the
 server's mode and TTL changes nothing in any answer.  An anonymous requester gets the server's. -/
 theorem requesters_own_mode (srv : Server) (p : Profile) (up : Host → QType → Msg) (host : Host) (qt : QType)
     (m : Mode) (m' : Mode) (t' : Nat) (hm : p.mode = some m) (hp : 0 ≤ p.ttl) :
-    (envOf srv (some p) up).mode = m ∧ (envOf srv (some p) up).ttl = p.ttl.toNat ∧
+    (envOf srv (some p) up).mode = m ∧ (envOf srv (some p) up).ttl = durSecs p.ttl ∧
     serveReq { srv with mode := m', ttl := t' } (some p) up host qt = serveReq srv (some p) up host qt := by
   have hn : ¬ p.ttl < 0 := by omega
   refine ⟨by simp [envOf, ctorOf, hn, hm], by simp [envOf, ctorOf, hn, hm], ?_⟩
   unfold serveReq envOf ctorOf
   simp [hn, hm]
+
+/-- **ttl_whole_seconds.**  Independent reading of "that profile's TTL": the TTL written into every
+synthesised record is the largest number of whole seconds that fits into the configured duration
+(no rounding up, no minimum) — `n` seconds exactly when `n s ≤ d < (n+1) s`. -/
+theorem ttl_whole_seconds (d : Int) (hd : 0 ≤ d) (n : Nat) :
+    durSecs d = n ↔ (n : Int) * nsPerSec ≤ d ∧ d < ((n : Int) + 1) * nsPerSec := by
+  unfold durSecs nsPerSec
+  constructor
+  · intro h
+    have : d / 1000000000 = (n : Int) := by omega
+    omega
+  · intro h
+    have : d / 1000000000 = (n : Int) := by omega
+    omega
+
+example : durSecs 1500000000 = 1 ∧ durSecs 999999999 = 0 ∧ durSecs 0 = 0 ∧ durSecs 3600000000000 = 3600 := by decide
 
 /-- **no_constructor_gets_server_mode.**  The two ways a profile can fail to yield a message
 constructor — no blocking mode at all, or a negative TTL — leave the server's constructor in place:
@@ -1165,7 +1255,7 @@ theorem no_constructor_gets_server_mode (srv : Server) (p : Profile) (up : Host 
 /-- A profile without a blocking mode on a REFUSED server: blocked by its own rule list, answered in
 the server's shape. -/
 example : let srv : Server := { st := { lists := [(0, [.net ["a", "test"] false .any])] }, mode := .refused, ttl := 10, grp := {} }
-    let p : Profile := { conf := { ruleListOn := true, listIds := [0] }, mode := none, ttl := 77,
+    let p : Profile := { conf := { ruleListOn := true, listIds := [0] }, mode := none, ttl := 77000000000,
                          filteringOn := true, devFilteringOn := true }
     serveReq srv (some p) (fun _ _ => { rcode := 0, ans := [], soa := none }) ["a", "test"] 1 =
       { rcode := 5, ans := [], soa := some 10 } := by decide
@@ -1179,7 +1269,7 @@ theorem anonymous_gets_server_mode (srv : Server) (up : Host → QType → Msg) 
 profile's TTL; the anonymous requester of the same server gets `0.0.0.0` with the server's TTL. -/
 example : let srv : Server := { st := { lists := [(0, [.net ["a", "test"] false .any])] }, mode := .nullIP, ttl := 10,
                                 grp := { ruleListOn := true, listIds := [0] } }
-    let p : Profile := { conf := { ruleListOn := true, listIds := [0] }, mode := some .nxdomain, ttl := 77,
+    let p : Profile := { conf := { ruleListOn := true, listIds := [0] }, mode := some .nxdomain, ttl := 77999999999,
                          filteringOn := true, devFilteringOn := true }
     let up : Host → QType → Msg := fun _ _ => { rcode := 0, ans := [], soa := none }
     serveReq srv (some p) up ["a", "test"] 1 = { rcode := 3, ans := [], soa := some 77 } ∧
@@ -1266,7 +1356,7 @@ example : let e : Env := { sw := ⟨false, false, false⟩, prof := {}, grp := {
     serve e ["a", "test"] 28 = { rcode := 0, ans := [], soa := some 30 } := by decide
 
 /-- Nothing in the message was obtained from upstream. -/
-def NoUpstream (m : Msg) : Prop := (∀ r ∈ m.ans, r.up = false) ∧ m.upNs = 0
+def NoUpstream (m : Msg) : Prop := (∀ r ∈ m.ans, r.up = false) ∧ m.upNs = 0 ∧ m.upExtra = 0
 
 /-- **blocked_no_upstream.** The answer to a blocked query contains no record obtained from
 upstream — for every blocking mode, including custom-IP lists with addresses of the wrong family
@@ -1378,6 +1468,50 @@ theorem blocked_leaks_upstream_counterexample :
     { name := ["a", "test"], typ := 1, val := "192.0.2.1", ttl := 7777, up := true } (by decide)
   exact absurd this (by decide)
 
+/-! ### Debug queries: same answer, and the request's verdict is the one reported -/
+
+/-- **reported_request_first.**  What a debug answer reports is the request's verdict whenever there
+is one — whatever the response filter would have said about the upstream answer — and the response's
+verdict only when the request filter was silent. -/
+theorem reported_request_first (e : Env) (host : Host) (qt : QType) (c : Cfg)
+    (hf : selectFilter e.sw e.prof e.grp = some c) :
+    (filterRequest c host qt ≠ .none → reportedVerdict e host qt = (true, filterRequest c host qt)) ∧
+    (filterRequest c host qt = .none →
+      reportedVerdict e host qt = (false, filterResponse c ((e.upstream host qt).ans.map ansOf))) := by
+  unfold reportedVerdict
+  rw [hf]
+  constructor
+  · intro h
+    cases hv : filterRequest c host qt <;> simp_all
+  · intro h
+    simp [h]
+
+/-- **debug_filtering_off_reports_nothing.**  With filtering disabled for the profile or the device a
+debug answer reports no verdict (and is the upstream answer, `filtering_off_is_empty`). -/
+theorem debug_filtering_off_reports_nothing (e : Env) (host : Host) (qt : QType)
+    (hp : e.sw.hasProfile = true) (hoff : e.sw.profOn = false ∨ e.sw.devOn = false) :
+    reportedVerdict e host qt = (false, .none) ∧ serveDebug e host qt = e.upstream host qt := by
+  refine ⟨?_, filtering_off_is_empty e host qt hp hoff⟩
+  unfold reportedVerdict selectFilter
+  rcases hoff with h | h <;> simp [hp, h]
+
+/-- **debug_blocked_no_upstream.**  A blocked query asked in the CHAOS class is answered like any
+other blocked query: in the requester's shape and without upstream records. -/
+theorem debug_blocked_no_upstream (e : Env) (host : Host) (qt : QType) (h : Blocked e host qt) :
+    serveDebug e host qt = (blockedResp e.mode e.ttl host qt).getD blockedFallback ∧
+    NoUpstream (serveDebug e host qt) :=
+  ⟨serve_blocked e host qt h, blocked_no_upstream e host qt h⟩
+
+/-- Request allow + response block on one exchange: reported is the request's allow; for another name
+the response's block is reported and the answer carries nothing from upstream. -/
+example :
+    let c : Cfg := { custom := some [.net ["a", "test"] true .any], lists := [(0, [.net ["t1", "test"] false .any])] }
+    let e : Env := { sw := ⟨true, true, true⟩, prof := c, grp := {}, mode := .nxdomain, ttl := 10,
+                     upstream := fun _ _ => { rcode := 0, ans := [caseRR ["T1", "Test"]], soa := none } }
+    reportedVerdict e ["a", "test"] 1 = (true, .allowed .custom) ∧
+    reportedVerdict e ["b", "test"] 1 = (false, .blocked (.shared 0)) ∧
+    serveDebug e ["b", "test"] 1 = { rcode := 3, ans := [], soa := some 10 } := by decide
+
 #print axioms rewrite_wins
 #print axioms rewrite_wins_rules
 #print axioms terminal_some
@@ -1431,6 +1565,16 @@ theorem blocked_leaks_upstream_counterexample :
 #print axioms blocked_no_upstream
 #print axioms rewrite_no_upstream
 #print axioms blocked_leaks_upstream_counterexample
+#print axioms ansOf_cname
+#print axioms response_verdict_ignores_case
+#print axioms response_filter_ignores_case
+#print axioms response_verdict_of_lower_case
+#print axioms cname_block_any_spelling
+#print axioms cname_case_counterexample
+#print axioms ttl_whole_seconds
+#print axioms reported_request_first
+#print axioms debug_filtering_off_reports_nothing
+#print axioms debug_blocked_no_upstream
 
 end Agd.Filter
 #print axioms Agd.Tie.TrC02.translation_complete
